@@ -82,7 +82,15 @@ def rule_tables(facts, rep):
     # xterm_to_ansi rows 0..15 + default
     b = facts.body("anstyle_lossy", L + "xterm_to_ansi")
     rep.fn(b["path"])
-    m = ac.single_expr(b["hir"])
+    try:
+        m = ac.single_expr(b["hir"])
+    except Unrecognised:
+        m = {}
+    if m.get("k") != "match":
+        rep.bad("tables", b["path"], "0-15-are-the-16-colours",
+                "xterm_to_ansi must map indices 0..=15 to the 16 colours by a fixed table (indices 0-15 of the 256-colour palette ARE the "
+                "16-colour palette, whatever the user palette contains); the function is no longer a table lookup", loc(b))
+        m = {"arms": [], "scrut": {}}
     got = {}
     default = None
     sc = hir.peel(m["scrut"])
